@@ -70,7 +70,7 @@ static uint32_t data_crc(dispatch_data_t d) {
 
 static unsigned char *BASE; static size_t BASEN;
 
-typedef struct { int used; dispatch_queue_t q; _Atomic int in_handler; _Atomic int done; } opslot_t;
+typedef struct { int used, is_read; dispatch_queue_t q; _Atomic int in_handler; _Atomic int done; } opslot_t;
 static opslot_t ops[MAXOPS];
 static dispatch_queue_t hq;
 static _Atomic int cleanup_runs;
@@ -105,7 +105,12 @@ static void peer_write(size_t n) {
 	while (done < n && idle < 2000) {
 		ssize_t r = write(fd_peer, BASE + (peer_wpos % BASEN), n - done < BASEN - (peer_wpos % BASEN) ? n - done : BASEN - (peer_wpos % BASEN));
 		if (r > 0) { done += (size_t)r; peer_wpos += (size_t)r; idle = 0; }
-		else if (r < 0 && (errno == EAGAIN || errno == EINTR)) { usleep(1000); idle++; }
+		else if (r < 0 && (errno == EAGAIN || errno == EINTR)) {
+			int readers = 0;
+			for (int k = 0; k < MAXOPS; k++) if (ops[k].used && ops[k].is_read && !atomic_load(&ops[k].done)) readers++;
+			if (!readers && idle > 20) break; // the buffer is full and nobody is going to drain it
+			usleep(1000); idle++;
+		}
 		else break;
 	}
 	logf_(next_seq(), "P w %zu 0", done);
@@ -187,7 +192,7 @@ int main(int argc, char **argv) {
 		} else if (!strcmp(cmd, "read") || !strcmp(cmd, "write")) {
 			int id; unsigned long long a; long hs; int n = 0;
 			sscanf(rest, "%d %llu %ld%n", &id, &a, &hs, &n); rest += n;
-			ops[id].q = dispatch_queue_create_with_target("c14.op", NULL, hq); ops[id].used = 1;
+			ops[id].q = dispatch_queue_create_with_target("c14.op", NULL, hq); ops[id].used = 1; ops[id].is_read = (cmd[0] == 'r');
 			dispatch_io_handler_t h = ^(bool done, dispatch_data_t d, int err) {
 				uint64_t s = next_seq();
 				int re = atomic_exchange(&ops[id].in_handler, 1);
@@ -237,7 +242,13 @@ int main(int argc, char **argv) {
 		} else if (!strcmp(cmd, "pshut")) { if (fd_peer >= 0) shutdown(fd_peer, SHUT_WR); logf_(next_seq(), "A pshut 0");
 		} else if (!strcmp(cmd, "sleep")) { long us; sscanf(rest, "%ld", &us); usleep((useconds_t)us);
 		} else if (!strcmp(cmd, "waitdrain")) {
-			for (int i = 0; i < 2000; i++) { int n = 0; if (ioctl(fd_lib, FIONREAD, &n) || n == 0) break; usleep(1000); }
+			for (int i = 0; i < 2000; i++) {
+				int n = 0, readers = 0;
+				if (ioctl(fd_lib, FIONREAD, &n) || n == 0) break;
+				for (int k = 0; k < MAXOPS; k++) if (ops[k].used && ops[k].is_read && !atomic_load(&ops[k].done)) readers++;
+				if (!readers) break; // nobody is going to drain it (all reads done or cancelled)
+				usleep(1000);
+			}
 			usleep(3000);
 		} else if (!strcmp(cmd, "wait")) {
 			int id; sscanf(rest, "%d", &id);
